@@ -695,3 +695,144 @@ def lazy_cases(rng):
     out.append(("raise-in-body", let([(ne, I(0))], let([(pe, delay(begin(set_(ne, prim("+", V(ne), I(1))), if_(prim("<", V(ne), I(2)), N(["raise", ["const", ["s", "boom"]]], "(raise 'boom)"), V(ne)))))],
                 begin(emit(guard(ge, [(B(True), S("caught"))], force(V(pe)))), emit(force(V(pe))), emit(force(V(pe))))))))
     return out
+
+
+# --------------------------------------------------------------------------- C03: the remaining derived forms
+def let_values(bindings, body, star=False):
+    """bindings: list of (params, rest|None, producer-expression).  Names are fresh, so nesting the consumers
+    (what let*-values means) is also what let-values means."""
+    core = body.core
+    for ps, rest, e in reversed(bindings):
+        core = ["cwv", ["lam", [], "", e.core], ["lam", list(ps), rest or "", core]]
+
+    def formals(ps, rest):
+        if rest:
+            return "(%s . %s)" % (" ".join(ps), rest) if ps else rest
+        return "(%s)" % " ".join(ps)
+    return N(core, "(%s (%s) %s)" % ("let*-values" if star else "let-values",
+                                     " ".join("(%s %s)" % (formals(ps, r), e.scm) for ps, r, e in bindings), body.scm))
+
+
+def case_lambda(clauses):
+    """clauses: list of (params, rest|None, body).  Core: dispatch on the length of the argument list, first match wins."""
+    args = fresh("clargs")
+    core = ["raise", ["const", ["s", "no-matching-clause"]]]
+    for ps, rest, body in reversed(clauses):
+        n = len(ps)
+        test = ["prim", "<=" if rest else "=", [["const", ["i", n]], ["prim", "length", [["var", args]]]]]
+        core = ["if", test, ["apply", ["lam", list(ps), rest or "", body.core], ["var", args]], core]
+
+    def formals(ps, rest):
+        if rest:
+            return "(%s . %s)" % (" ".join(ps), rest) if ps else rest
+        return "(%s)" % " ".join(ps)
+    return N(["lam", [], args, core], "(case-lambda %s)" % " ".join("(%s %s)" % (formals(ps, r), b.scm) for ps, r, b in clauses))
+
+
+def do_multi(vars_, test, results, body):
+    """vars_: list of (name, init, step|None).  All steps are evaluated in the scope of the OLD bindings and each
+    iteration gets FRESH bindings (closures made in the body keep their iteration's values)."""
+    loop = fresh("doloop")
+    names = [v[0] for v in vars_]
+    steps = [(v[2].core if v[2] is not None else ["var", v[0]]) for v in vars_]
+    res = begin(*results) if results else VOID
+    core = ["app", ["letrec", [loop], [["lam", names, "", ["if", test.core, res.core,
+                                                          ["begin", [body.core, ["app", ["var", loop], steps]]]]]],
+                    ["var", loop]], [v[1].core for v in vars_]]
+    scm = "(do (%s) (%s %s) %s)" % (" ".join("(%s %s%s)" % (n, i.scm, " " + s.scm if s is not None else "") for n, i, s in vars_),
+                                   test.scm, " ".join(r.scm for r in results), body.scm)
+    return N(core, scm)
+
+
+def forms_cases(rng):
+    """cond/case with =>, case over symbols, let-values / let*-values / define-values / receive-style consumers with rest
+    formals, case-lambda, do with several variables (fresh bindings per iteration, parallel steps), letrec, let* with a
+    repeated name, named let shadowing its own tag, apply with leading arguments, and/or delivering non-booleans,
+    assignment to a rest parameter that a closure has captured."""
+    k = lambda a=-3, b=9: rng.randrange(a, b)
+    out = []
+    # cond with => : the receiver gets the VALUE of the test
+    x, t, v = fresh("fx"), fresh("ft"), fresh("fv")
+    test = and_(prim(">", V(x), I(3)), prim("+", V(x), I(1)))
+    f = lam([v], None, prim("*", V(v), I(2)))
+    core = ["app", ["lam", [t], "", ["if", ["var", t], ["app", f.core, [["var", t]]],
+                                    ["if", prim("<", V(x), I(0)).core, S("neg").core, S("small").core]]], [test.core]]
+    node = N(core, "(cond (%s => %s) ((< %s 0) 'neg) (else 'small))" % (test.scm, f.scm, x))
+    out.append(("cond-arrow", let([(x, I(k()))], emit(node))))
+    # case over symbols and integers, with => in a clause and in else
+    kx, kt = fresh("fk"), fresh("fkt")
+    key = rng.choice([S("a"), S("b"), S("q"), I(1), I(7)])
+    g = lam([v], None, prim("list", V(v), S("seen")))
+    isin = lambda data: ["if", ["prim", "eqv?", [["var", kt], data[0]]], ["const", ["b", 1]],
+                         (["prim", "eqv?", [["var", kt], data[1]]] if len(data) > 1 else ["const", ["b", 0]])]
+    core = ["app", ["lam", [kt], "", ["if", isin([["const", ["s", "a"]], ["const", ["i", 1]]]), ["const", ["s", "first"]],
+                                     ["if", isin([["const", ["s", "b"]]]), ["app", g.core, [["var", kt]]],
+                                      ["app", g.core, [["var", kt]]]]]], [["var", kx]]]
+    node = N(core, "(case %s ((a 1) 'first) ((b) => %s) (else => %s))" % (kx, g.scm, g.scm))
+    out.append(("case-arrow", let([(kx, key)], emit(node))))
+    # let-values / let*-values with rest formals
+    a, b, c, r, d = fresh("fa"), fresh("fb"), fresh("fc"), fresh("fr"), fresh("fd")
+    n1, n2, n3 = k(), k(), k()
+    body = begin(emit(prim("list", V(a), V(b), V(c))), emit(V(r)), emit(V(d)))
+    for star in (False, True):
+        out.append(("let*-values" if star else "let-values",
+                    let_values([([a, b], None, values(I(n1), I(n2))),
+                                ([c], r, values(I(n3), I(n1), S("w"))),
+                                ([], d, values(*[I(n2)] * rng.randrange(0, 3)))], body, star)))
+    # let*-values: a later producer sees the earlier variables
+    out.append(("let*-values-seq", let_values([([a, b], None, values(I(n1), I(n2))), ([c], None, values(prim("+", V(a), V(b))))],
+                                              emit(prim("list", V(a), V(b), V(c))), True)))
+    # define-values in a body, followed by a define that uses it
+    e1 = fresh("fe")
+    core = ["cwv", ["lam", [], "", values(I(n1), I(n2), I(n3)).core],
+            ["lam", [a], r, ["letrec", [e1], [prim("+", V(a), I(1)).core], begin(emit(V(e1)), emit(V(r))).core]]]
+    out.append(("define-values", N(core, "(let () (define-values (%s . %s) (values %d %d %d)) (define %s (+ %s 1)) (emit %s) (emit %s))"
+                                   % (a, r, n1, n2, n3, e1, a, e1, r))))
+    # case-lambda: dispatch on the number of arguments, first matching clause
+    cl, p, q, rs = fresh("fcl"), fresh("fp"), fresh("fq"), fresh("frs")
+    clam = case_lambda([([], None, S("none")), ([p], None, prim("list", S("one"), V(p))),
+                        ([p, q], None, prim("list", S("two"), V(q), V(p))),
+                        ([p], rs, prim("list", S("many"), V(p), prim("length", V(rs))))])
+    calls = [emit(app(V(cl), [I(k()) for _ in range(nargs)])) for nargs in rng.sample(range(0, 6), 4)]
+    out.append(("case-lambda", let([(cl, clam)], begin(*calls))))
+    # do with two variables: the steps see the OLD values, the closures made in the body keep THEIR iteration's binding
+    i, acc, ff = fresh("i"), fresh("facc"), fresh("ff")
+    lim = rng.randrange(2, 5)
+    loop = do_multi([(i, I(0), prim("+", V(i), I(1))),
+                     (acc, NIL, prim("cons", lam([], None, V(i)), V(acc))),
+                     (ff, I(k()), None)],
+                    prim("=", V(i), I(lim)), [V(acc)], begin(emit(prim("+", V(i), V(ff))), set_(ff, prim("+", V(ff), I(2)))))
+    lst, wl, w = fresh("fl"), fresh("fwalk"), fresh("fw")
+    walk = named_let(wl, [(w, V(lst))], if_(prim("null?", V(w)), S("end"),
+                                             begin(emit(app(prim("car", V(w)), [])), app(V(wl), [prim("cdr", V(w))]))))
+    out.append(("do-fresh-bindings", let([(lst, loop)], emit(walk))))
+    # do: parallel steps (swap)
+    u, w2, j = fresh("fu"), fresh("fw"), fresh("j")
+    out.append(("do-parallel-steps", emit(do_multi([(u, I(k()), V(w2)), (w2, I(k()), V(u)), (j, I(0), prim("+", V(j), I(1)))],
+                                                   prim("=", V(j), I(rng.randrange(1, 4))), [prim("list", V(u), V(w2))], VOID))))
+    # letrec with mutually recursive procedures
+    ev, od, n = fresh("fev"), fresh("fod"), fresh("fn")
+    node = letrec([ev, od], [lam([n], None, if_(prim("=", V(n), I(0)), B(True), app(V(od), [prim("-", V(n), I(1))]))),
+                             lam([n], None, if_(prim("=", V(n), I(0)), B(False), app(V(ev), [prim("-", V(n), I(1))])))],
+                  emit(app(V(ev), [I(rng.randrange(0, 7))])))
+    out.append(("letrec-mutual", N(node.core, node.scm.replace("(letrec* ", "(letrec ", 1))))
+    # let* with a repeated name; named let whose body shadows the tag
+    y = fresh("fy")
+    out.append(("let*-repeated-name", letstar([(y, I(k())), (y, prim("+", V(y), I(1))), (y, prim("*", V(y), I(2)))], emit(V(y)))))
+    tag, z = fresh("ftag"), fresh("fz")
+    out.append(("named-let-shadowed-tag", emit(named_let(tag, [(z, I(k(1, 6)))],
+                if_(prim("<", V(z), I(1)), S("bottom"), let([(tag, lam([z], None, prim("list", S("shadow"), V(z))))], app(V(tag), [prim("-", V(z), I(1))])))))))
+    # apply with leading arguments
+    h = fresh("fh")
+    l0 = prim("list", I(k()), I(k()))
+    node = N(["apply", V(h).core, prim("cons", I(n1), prim("cons", I(n2), l0)).core], "(apply %s %d %d %s)" % (h, n1, n2, l0.scm))
+    out.append(("apply-leading", let([(h, lam([a], r, prim("list", V(a), prim("length", V(r)), V(r))))], emit(node))))
+    # and / or deliver the deciding VALUE
+    out.append(("and-or-values", begin(emit(or_(B(False), I(n1), I(n2))), emit(and_(I(n1), S("s"), I(n3))), emit(and_(I(n1), B(False), I(n3))),
+                                       emit(or_(and_(B(False), I(1)), prim("list", I(n2)))))))
+    # a captured rest parameter that is assigned
+    mk, rr, get = fresh("fmk"), fresh("frr"), fresh("fget")
+    out.append(("rest-assigned-captured",
+                let([(mk, lam([], rr, let([(get, lam([], None, V(rr)))], begin(set_(rr, prim("cons", S("x"), V(rr))), V(get)))))],
+                    begin(emit(app(app(V(mk), [I(n1), I(n2)]), [])), emit(app(app(V(mk), []), []))))))
+    return out
